@@ -79,6 +79,22 @@ func (c14) Gen(rng *rand.Rand, tier string, i int) *sim.Scenario {
 			c.Listener = 1
 			c.TimeoutMs = 600
 		}
+		if chance(rng, 0.4) {
+			// failing runs and probes: the error paths of the aggregation run concurrently too
+			c.TimeoutMs, c.E2E = pick(rng, 0, 120), between(rng, 2, 12)
+			if chance(rng, 0.5) {
+				sc.Knobs.FreeFailAll = true
+			} else {
+				for k := 1; k <= c.Queries+c.E2E; k++ {
+					if chance(rng, 0.6) {
+						sc.Knobs.FreeFailNew = append(sc.Knobs.FreeFailNew, k)
+					}
+				}
+			}
+			if v.Entry == "sack" {
+				c.TimeoutMs = 600
+			}
+		}
 		sc.Calls = append(sc.Calls, c)
 	default:
 		sc.Calls = append(sc.Calls, sim.Call{Entry: "alloc_stress", Queries: between(rng, 2, 8), E2E: between(rng, 50, 400), MaxTTL: pick(rng, 1, 30, 255)})
